@@ -140,8 +140,10 @@ package litonlylzma
 //@ func encodeUvarint
 //@   prop C17
 //@   ensures len(result) > len(dst) && (base(result) == base(dst) || fresh(base(result)))
+//@   ensures[atmost10] len(result) <= len(dst) + 10
 //@   modifies mem(dst)
 //@   loop 1 invariant len(dst) >= old(len(dst)) && (base(dst) == old(base(dst)) || fresh(base(dst)))
+//@   loop 1 invariant len(dst) == old(len(dst)) || (len(dst) == old(len(dst)) + 1 && x < 144115188075855872) || (len(dst) == old(len(dst)) + 2 && x < 1125899906842624) || (len(dst) == old(len(dst)) + 3 && x < 8796093022208) || (len(dst) == old(len(dst)) + 4 && x < 68719476736) || (len(dst) == old(len(dst)) + 5 && x < 536870912) || (len(dst) == old(len(dst)) + 6 && x < 4194304) || (len(dst) == old(len(dst)) + 7 && x < 32768) || (len(dst) == old(len(dst)) + 8 && x < 256) || (len(dst) == old(len(dst)) + 9 && x < 2)
 //@   loop 1 decreases x
 
 //@ func encodeRaw
@@ -170,6 +172,9 @@ package litonlylzma
 //@ func encodeXz
 //@   prop C17
 //@   assert@call append#2 [rawchunk] 1 <= len(srcChunk) && len(srcChunk) <= 0x10000
+//@   assert@call append#8 [blockpad] (len(dst) - dstLen0) % 4 == 0
+//@   assert@call append#11 [indexpad] (len(dst) - dstLen1) % 4 == 0 && backwardSize >= 1 && backwardSize < 0x100000000
+//@   assert@call append#12 [backward] 4 * backwardSize + 4 == dstLen2 - dstLen1
 //@   assert@call append#4 [lzmachunk] 1 <= len(srcChunk) && len(srcChunk) <= 0x10000 && len(rawLZMA) <= 0x10000
 //@   ensures retErr == nil && len(appendedDst) >= len(dst) + 24
 //@   modifies mem(dst)
@@ -177,7 +182,7 @@ package litonlylzma
 //@   loop 1 decreases len(remaining)
 //@   loop 2 invariant len(dst) >= dstLen0 + 12 && dstLen0 == old(len(dst)) + 12 && (base(dst) == old(base(dst)) || fresh(base(dst)))
 //@   loop 2 decreases 3 - ((len(dst) - dstLen0) % 4 + 3) % 4
-//@   loop 3 invariant len(dst) >= dstLen1 + 2 && dstLen1 >= dstLen0 + 12 && dstLen0 == old(len(dst)) + 12 && (base(dst) == old(base(dst)) || fresh(base(dst)))
+//@   loop 3 invariant len(dst) <= dstLen1 + 24 && len(dst) >= dstLen1 + 2 && dstLen1 >= dstLen0 + 12 && dstLen0 == old(len(dst)) + 12 && (base(dst) == old(base(dst)) || fresh(base(dst)))
 //@   loop 3 decreases 3 - ((len(dst) - dstLen1) % 4 + 3) % 4
 
 //@ func (FileFormat).Encode
